@@ -53,35 +53,47 @@ func (cache *Cache) evict() {
 	delete(cache.entries, key)
 }
 
+// cacheKey derives the cache key from the message digest, the claimed participants and the
+// signature bytes. The participants are part of the key because the signature bytes alone do
+// not say which replicas the signature claims to come from.
+func cacheKey(digest hotstuff.Hash, signature hotstuff.QuorumSignature) string {
+	var key strings.Builder
+	_, _ = key.Write(digest[:])
+	participants := signature.Participants()
+	var count [4]byte
+	binary.LittleEndian.PutUint32(count[:], uint32(participants.Len()))
+	_, _ = key.Write(count[:])
+	participants.ForEach(func(id hotstuff.ID) {
+		_, _ = key.Write(id.ToBytes())
+	})
+	_, _ = key.Write(signature.ToBytes())
+	return key.String()
+}
+
 // Sign signs a message and adds it to the cache for use during verification.
 func (cache *Cache) Sign(message []byte) (sig hotstuff.QuorumSignature, err error) {
 	sig, err = cache.impl.Sign(message)
 	if err != nil {
 		return nil, err
 	}
-	var key strings.Builder
 	hash := sha256.Sum256(message)
-	_, _ = key.Write(hash[:])
-	_, _ = key.Write(sig.ToBytes())
-	cache.insert(key.String())
+	cache.insert(cacheKey(hash, sig))
 	return sig, nil
 }
 
 // Verify verifies the given quorum signature against the message.
 func (cache *Cache) Verify(signature hotstuff.QuorumSignature, message []byte) error {
-	var key strings.Builder
 	hash := sha256.Sum256(message)
-	_, _ = key.Write(hash[:])
-	_, _ = key.Write(signature.ToBytes())
+	key := cacheKey(hash, signature)
 
-	if cache.check(key.String()) {
+	if cache.check(key) {
 		return nil
 	}
 
 	if err := cache.impl.Verify(signature, message); err != nil {
 		return err
 	}
-	cache.insert(key.String())
+	cache.insert(key)
 
 	return nil
 }
@@ -102,19 +114,16 @@ func (cache *Cache) BatchVerify(signature hotstuff.QuorumSignature, batch map[ho
 		_, _ = hasher.Write(batch[id])
 	}
 	hasher.Sum(hash[:0])
+	key := cacheKey(hash, signature)
 
-	var key strings.Builder
-	_, _ = key.Write(hash[:])
-	_, _ = key.Write(signature.ToBytes())
-
-	if cache.check(key.String()) {
+	if cache.check(key) {
 		return nil
 	}
 
 	if err := cache.impl.BatchVerify(signature, batch); err != nil {
 		return err
 	}
-	cache.insert(key.String())
+	cache.insert(key)
 	return nil
 }
 
